@@ -80,6 +80,33 @@ def judge(case):
         if len(calls) != 2 or any(c != 1 for c in calls.values()):
             v("backward-walks-detached-history", f"backward after the cut invoked {sum(calls.values())} backward functions, the differentiable graph has 2")
         return {"nontrivial": n >= 100, "outcome": "ok", "violations": viol}
+    if kind.startswith("untracked_op_chain"):
+        # x = op(x) repeated with tracking off (inside no_grad on a tracked tensor / on plain data): shape-preserving compositions of
+        # every view-like and copying op - the result of step i must not keep the tensors of earlier steps alive
+        which, how = kind.split(":")[1], kind.split(":")[2]
+        steps = {"reshape": lambda t: t.reshape((3, 2)).reshape((2, 3)), "transpose": lambda t: t.transpose(0, 1).transpose(0, 1),
+                 "movedim": lambda t: t.movedim(0, 1).movedim(1, 0), "flatten": lambda t: t.flatten().reshape((2, 3)),
+                 "unfold": lambda t: t.unfold(1, 3, 1).reshape((2, 3)), "squeeze": lambda t: t.unsqueeze(0).squeeze(0),
+                 "index": lambda t: t[:, ::1][0:2], "clone": lambda t: t.clone(), "detach": lambda t: t.detach(),
+                 "unbind_stack": lambda t: sg.stack(list(sg.unbind(t, 0)), 0), "concat": lambda t: sg.concat([t[0:1], t[1:2]], 0),
+                 "sum_keepdims": lambda t: t + t.sum(dim=1, keepdims=True) * 0.0, "max": lambda t: t - t.max() * 0.0}
+        x = T(np.arange(6.0).reshape(2, 3), requires_grad=(how == "no_grad"))
+        refs = []; m = min(n, 2000)
+        def loop(y):
+            for i in range(m):
+                y = steps[which](y)
+                if i < m - 10: refs.append(weakref.ref(y))
+            return y
+        if how == "no_grad":
+            with sg.no_grad(): y = loop(x * 1.0)
+        else:
+            y = loop(x)
+        gc.collect()
+        alive = sum(1 for r in refs if r() is not None)
+        if y.requires_grad: v("result-requires-grad", f"untracked {which} result requires grad")
+        if alive > 4:
+            v("history-kept", f"{alive} of {len(refs)} earlier results of x = {which}(x) repeated with tracking off ({how}) are still alive")
+        return {"nontrivial": n >= 100, "outcome": "ok", "violations": viol}
     if kind.startswith("untracked"):
         import contextlib
         kind0 = kind.split("+")[0]
@@ -321,10 +348,13 @@ def all_cases(tier):
                  "untracked_no_grad+varying_scalars", "untracked_no_operand_requires_grad+varying_scalars", "detach_each_step",
                  "untracked_layer_chain:conv2d", "untracked_layer_chain:conv1d", "untracked_layer_chain:linear", "untracked_layer_chain:batchnorm",
                  "untracked_layer_chain:sequential", "frozen_layer_chain:conv2d", "frozen_layer_chain:conv1d", "frozen_layer_chain:linear",
-                 "frozen_layer_chain:batchnorm", "frozen_layer_chain:sequential"):
+                 "frozen_layer_chain:batchnorm", "frozen_layer_chain:sequential") + tuple(
+                 f"untracked_op_chain:{o}:{h}" for o in ("reshape", "transpose", "movedim", "flatten", "unfold", "squeeze", "index", "clone", "detach",
+                                                         "unbind_stack", "concat", "sum_keepdims", "max") for h in ("no_grad", "plain")):
         for n in sizes:
             if kind == "ladder" and n > 20000: continue
             if (kind.startswith("untracked_layer_chain") or kind.startswith("frozen_layer_chain")) and n not in (100, 1000): continue
+            if kind.startswith("untracked_op_chain") and n != 1000: continue
             out.append({"kind": kind, "n": n})
     for shape in ("chain", "ladder", "tree", "fanin", "fanin_stack_computed", "chain_retain_each", "chain_built_under_retain_grads", "chain_from_many_leaves", "sum_over_detached_constants"):
         for n in ((100, 250) if tier == "quick" else (100, 250, 600)):
